@@ -3,6 +3,8 @@ CONSTANTS
   Users = {"a", "b", "c"}
   Contracts = {"x", "y", "s", "e"}
   Hangers = {"z"}
+  HxTwins = {"xh"}
+  CxTwins = {"ac"}
   Ghosts = {"g"}
   SyncContracts = {"s"}
   EEContracts = {"e"}
